@@ -79,6 +79,7 @@ type c24Run struct {
 	flushes atomic.Int64
 	stop    chan struct{}
 	cdone   chan struct{}
+	pauseCh chan struct{} // wakes a consumer that is waiting on Queue.C so that it notices `paused`
 }
 
 // c24Slow counts runs that hit a multi-second deadline (only a broken queue does); after a few the
@@ -135,6 +136,8 @@ func (r *c24Run) consumer() {
 		select {
 		case <-r.stop:
 			return
+		case <-r.pauseCh:
+			continue
 		case req := <-r.q.C:
 			b := c24Batch{seq: req.SequenceNumber - r.base, objs: append([]uint64{}, req.Objects...)}
 			r.mu.Lock()
@@ -274,7 +277,7 @@ func c24Timeout(in c24Input) time.Duration {
 }
 
 func c24Exec(in c24Input) *c24Run {
-	r := &c24Run{in: in, chans: map[FlushChannel]int{}, closedS: map[int]bool{}, stop: make(chan struct{}), cdone: make(chan struct{})}
+	r := &c24Run{in: in, chans: map[FlushChannel]int{}, closedS: map[int]bool{}, stop: make(chan struct{}), cdone: make(chan struct{}), pauseCh: make(chan struct{}, 1)}
 	r.q = New[uint64](in.MaxSize, in.BatchSize, c24Timeout(in))
 	r.q.seqMu.Lock()
 	r.base = r.q.seqNum
@@ -295,6 +298,10 @@ func c24Exec(in c24Input) *c24Run {
 				r.flush()
 			case "p":
 				r.paused.Store(true)
+				select {
+				case r.pauseCh <- struct{}{}:
+				default:
+				}
 			case "r":
 				r.paused.Store(false)
 			case "s":
@@ -918,6 +925,36 @@ func c24GenBackpressure(rng *rand.Rand, timed bool, stress bool) c24Input {
 	return in
 }
 
+// c24GenStalled: a timed queue whose consumer is stalled while short batches time out.  The consumer is paused,
+// one full batch parks in sendCh (optionally a second one blocks the loop in `sendCh <- req`), fewer than
+// batch-size writes follow, the producer sleeps 10 timeouts (the batch timer fires while sendCh is occupied),
+// optionally the same again, then the consumer resumes and NOTHING more is written.  Every write must still
+// come out by itself: with a non-zero timeout the loop never sits on writes without an armed timer or a
+// pending blocking send (theorem C24_timer_covers_pending; qObjs and the timer are locals of run(), so the tie
+// observes the consequence: everything delivered within 5 s >= 1000 timeouts after the last write).
+func c24GenStalled(rng *rand.Rand) c24Input {
+	in := c24Input{Mode: "script", BatchSize: 2 + rng.Intn(3), MaxSize: []int{4, 16, 64}[rng.Intn(3)], Seed: rng.Int63()}
+	in.TimeoutUs = []int{1000, 2000, 4000}[rng.Intn(3)]
+	w := func(n int) {
+		for i := 0; i < n; i++ {
+			in.Ops = append(in.Ops, c24Op{K: "w", N: 1 + rng.Intn(2), FC: rng.Intn(3) == 0})
+		}
+	}
+	if rng.Intn(3) == 0 { // something delivered normally first
+		w(1 + rng.Intn(in.BatchSize))
+		in.Ops = append(in.Ops, c24Op{K: "s", SleepUs: 4 * in.TimeoutUs})
+	}
+	in.Ops = append(in.Ops, c24Op{K: "p"}, c24Op{K: "s", SleepUs: 1000})
+	w(in.BatchSize * (1 + rng.Intn(2))) // 1: parked in sendCh, loop free; 2: second one blocks the loop
+	rounds := 1 + rng.Intn(2)
+	for k := 0; k < rounds; k++ {
+		w(1 + rng.Intn(in.BatchSize-1))
+		in.Ops = append(in.Ops, c24Op{K: "s", SleepUs: 10 * in.TimeoutUs})
+	}
+	in.Ops = append(in.Ops, c24Op{K: "r"})
+	return in
+}
+
 func TestVerif_C24(t *testing.T) {
 	w := vOpen()
 	defer w.Close()
@@ -943,6 +980,7 @@ func TestVerif_C24(t *testing.T) {
 		{Mode: "conc", MaxSize: 16, BatchSize: 4, Writers: 4, PerWriter: 10, TimeoutUs: 1000},
 		{Mode: "conc", MaxSize: 1, BatchSize: 1, Writers: 4, PerWriter: 40, SlowUs: 20},
 		{Mode: "conc", MaxSize: 2, BatchSize: 2, Writers: 3, PerWriter: 40, SlowUs: 60, Flushes: 2},
+		{Mode: "script", MaxSize: 8, BatchSize: 2, TimeoutUs: 2000, Ops: []c24Op{{K: "p"}, {K: "s", SleepUs: 1000}, {K: "w", N: 1}, {K: "w", N: 1}, {K: "w", N: 1, FC: true}, {K: "s", SleepUs: 20000}, {K: "r"}}},
 	}
 	for _, in := range corpus {
 		c24RunCase(w, in)
@@ -958,6 +996,10 @@ func TestVerif_C24(t *testing.T) {
 		default:
 			c24RunCase(w, c24GenScript(rng, false))
 		}
+	}
+	nStalled := vN(20, 600)
+	for i := 0; i < nStalled && c24Slow.Load() < 3; i++ {
+		c24RunCase(w, c24GenStalled(rng))
 	}
 	nBP := vN(24, 1500)
 	for i := 0; i < nBP && c24Slow.Load() < 3; i++ {
